@@ -114,6 +114,20 @@ PHASE 4 (f90tri; Tables/SrcF90Triangle.lean) - `triangle.f90`, `triangle_interse
                 `norm2(m)` of a rank-2 array ↦ `norm2 (List.flatten m)` (Frobenius norm; order of the elements immaterial)
   not read      `use m, only: ...` lists: a name that exists in two modules and is referenced from a THIRD module resolves to
                 the routine listed first (the argument count then differs: EXTRACT-PROBLEM, not a wrong translation)
+PHASE 4 (f90classify; Tables/SrcF90Classify.lean) - decision routines of triangle_intersection.f90 on derived types
+  derived types `type :: Name .. end type` is read from the module text and emitted as `structure NameRec (K)` (real -> K, integer ->
+                Int, logical -> Bool, `real, allocatable :: a(:, :)` -> List (List K), not allocated = []), with `NameRec.dflt` =
+                the DEFAULT INITIALISATION of the source (a local / intent(out) variable of such a type starts as `dflt`; a type
+                with a scalar component without default is refused), `NameRec.elem l i` = `l(i+1)` (`dflt` outside), `setElem`;
+                `a%f`, `a(i)%f`, `a%f = e`, `a(i)%f = e` (`{ x with f := e }`), `x = a(i)`, `a(i) = x`
+  integers      an intent(out) integer left unassigned is the explicit parameter `undefI : Int`; integer rank-1 arrays are
+                `List Int` (`intAt`, `secI`, `setSecI`); enum / status parameters are inlined as their integer values
+  intrinsics    `size(a, k)`, `size(a)`; `modulo(a, p)` with a positive literal `p` = Lean's `Int.emod`; `sign(a, b)` = `signK a b`
+                (`-|a|` iff `b < 0`; K has no negative zero)
+  `n = size(a, k)` an integer local that holds `size(<array expr>, k)` may be passed as the extent argument belonging to the
+                textually same array argument; the fact is forgotten when the local or a name in `<array expr>` is re-assigned
+  `{"records": True}` additionally accepts intent(inout) dummies (an input AND a component of the result tuple) and assumed-shape
+                rank-1 dummies `a(:)`
 
 Deterministic; writes the file only when its content changes; exit status 0 also when routines are not translatable.
 Usage: translate_f90.py [--out PATH] [--print]
@@ -181,10 +195,24 @@ ROUTINES = [
     ("curve", "specialize_curve_generic", {"reduce": ["dimension_"], "as": "specialize_curve_generic_full"}),
     ("curve", "projection_error"),
     ("curve", "can_reduce"),
+    # phase 4 (f90classify): decision logic of triangle_intersection.f90 (derived types -> structures, integers -> Int)
+    ("triangle_intersection", "ignored_edge_corner", {"unit": True}),
+    ("triangle_intersection", "ignored_double_corner", {"unit": True}),
+    ("triangle_intersection", "ignored_corner", {"unit": True}),
+    ("triangle_intersection", "classify_tangent_intersection", {"unit": True}),
+    ("triangle_intersection", "classify_intersection", {"unit": True}),
+    ("triangle_intersection", "is_first", {"records": True}),
+    ("triangle_intersection", "is_second", {"records": True}),
+    ("triangle_intersection", "should_keep", {"records": True}),
+    ("triangle_intersection", "find_corner_unused", {"records": True}),
+    ("triangle_intersection", "update_edge_end_unused", {"records": True}),      # translated; no theorem yet
+    ("triangle_intersection", "remove_node", {"records": True}),
+    ("triangle_intersection", "to_front", {"records": True}),
+    ("triangle_intersection", "get_next", {"records": True}),
 ]
 
 MODULES = ("helpers", "curve_intersection", "curve", "triangle")
-MODULES = MODULES + ("triangle_intersection",)      # phase 4 (f90tri)
+MODULES = MODULES + ("status", "triangle_intersection")            # phase 4 (f90tri, f90classify)
 
 # integer enum families: Fortran prefix -> (Lean inductive, {constructor: toNat value}, name of the toNat function)
 ENUMS = {
@@ -483,14 +511,27 @@ class Parser:
                         args.append(self.p_arg())
                     self.expect(")")
                 k2, v2 = self.peek()
+                if v2 == "%":
+                    return self.p_component(("ref", v, args))       # phase 4 (f90classify)
                 if v2 in ("(", "%"):
                     raise Problem("component / double reference not supported")
                 return ("ref", v, args)
             k2, v2 = self.peek()
             if v2 == "%":
-                raise Problem("derived-type component not supported")
+                return self.p_component(("name", v))                # phase 4 (f90classify)
             return ("name", v)
         raise Problem("unexpected token %r" % (v,))
+
+    def p_component(self, base):
+        """phase 4 (f90classify): `base%field[%field..]` -> ('comp', base, field); a subscripted component is refused"""
+        while self.accept("%"):
+            k, v = self.next()
+            if k != "name":
+                raise Problem("malformed component reference")
+            if self.peek()[1] == "(":
+                raise Problem("subscripted derived-type component not supported")
+            base = ("comp", base, v)
+        return base
 
     def p_arg(self):
         k, v = self.peek()
@@ -536,6 +577,8 @@ def canon(e):
         return ":".join(canon(x) for x in e[1:])
     if k == "arr":
         return "[%s]" % ",".join(canon(x) for x in e[1])
+    if k == "comp":                                                 # phase 4 (f90classify)
+        return "%s%%%s" % (canon(e[1]), e[2].lower())
     return "?"
 
 
@@ -604,6 +647,8 @@ def parse_decl(line):
     if "::" not in line:
         raise Problem("declaration without `::`: %r" % line)
     left, right = line.split("::", 1)
+    if re.match(r"^\s*type\s*\(", left, re.I):                      # phase 4 (f90classify)
+        return parse_decl_record(left, right)
     m = re.match(r"^\s*(real|integer|logical)\s*\(\s*(\w+)\s*\)\s*(.*)$", left, re.I)
     if not m:
         raise Problem("declaration type not supported: %r" % left.strip())
@@ -755,13 +800,139 @@ def parse_statements(lines):
         if k > 0:
             lhs = parse_expr(line[:k])
             rhs = parse_expr(line[k + 1:])
-            if lhs[0] not in ("name", "ref"):
+            if lhs[0] not in ("name", "ref") and not (lhs[0] == "comp" and lhs[1][0] in ("name", "ref")):   # phase 4: `a%f = ..`
                 raise Problem("assignment target not supported: %r" % line)
             return ("assign", lhs, rhs, line)
         raise Problem("statement not understood: %r" % line)
 
     res = block([])
     return res
+
+
+# ======================================================================================== phase 4 (f90classify): derived types
+# RECORDS: lower type name -> {"name", "mod", "fields": [(field name, base, rank, default ast | None)], "src": [lines]}
+# filled by `load_records` from the `type :: Name ... end type` definitions of the modules; a derived type is translated to
+# a Lean structure `<Name>Rec K` (real -> K, integer -> Int, logical -> Bool, allocatable real (:, :) -> List (List K),
+# not allocated = []), `<Name>Rec.dflt` is the default initialisation of the source, `<Name>Rec.elem l i` the element
+# `l(i+1)` of an array of records (`dflt` outside the array: a subscript out of bounds is outside the translated semantics)
+RECORDS = {}
+RECORDS_USED = []
+
+
+def load_records(mod, lines):
+    i = 0
+    while i < len(lines):
+        m = re.match(r"type\s*(?:,\s*bind\s*\(\s*c\s*\)\s*)?::\s*(\w+)\s*$", lines[i], re.I)
+        if not m:
+            i += 1
+            continue
+        name = m.group(1)
+        fields, src = [], [lines[i]]
+        i += 1
+        ok = True
+        while i < len(lines) and not re.match(r"end\s*type\b", lines[i], re.I):
+            src.append(lines[i])
+            mm = re.match(r"^(real|integer|logical)\s*\(\s*(\w+)\s*\)\s*(,\s*allocatable\s*)?::\s*(\w+)\s*(\(\s*:\s*(?:,\s*:\s*)*\))?"
+                          r"\s*(?:=\s*(.*))?$", lines[i], re.I)
+            if not mm or (mm.group(1).lower(), mm.group(2).lower()) not in (("real", "c_double"), ("integer", "c_int"), ("logical", "c_bool")):
+                ok = False
+            else:
+                rank = mm.group(5).count(":") if mm.group(5) else 0
+                if bool(mm.group(3)) != bool(rank) or (rank and (mm.group(1).lower() != "real" or mm.group(6))):
+                    ok = False
+                else:
+                    base = {"real": "real", "integer": "int", "logical": "bool"}[mm.group(1).lower()]
+                    fields.append((mm.group(4), base, rank, parse_expr(mm.group(6)) if mm.group(6) else None))
+            i += 1
+        RECORDS[name.lower()] = {"name": name, "mod": mod, "fields": fields if ok else None, "src": src + ["end type %s" % name]}
+    return
+
+
+def record_of(base):
+    """the RECORDS entry of the base `rec:<name>`; Problem when the definition was not understood"""
+    rec = RECORDS.get(base[4:])
+    if rec is None:
+        raise Problem("derived type %s: definition not found" % base[4:])
+    if rec["fields"] is None:
+        raise Problem("derived type %s: a component declaration is outside the accepted subset" % rec["name"])
+    if rec not in RECORDS_USED:
+        for f in rec["fields"]:
+            if f[3] is None and f[2] == 0:
+                raise Problem("derived type %s: component %s has no default initialisation" % (rec["name"], f[0]))
+        RECORDS_USED.append(rec)
+    return rec
+
+
+def record_field(rec, field):
+    for f in rec["fields"]:
+        if f[0].lower() == field.lower():
+            return f
+    raise Problem("derived type %s has no component %s" % (rec["name"], field))
+
+
+def parse_decl_record(left, right):
+    """`type(Name) [, intent(..)] [, allocatable] :: a, b(3), c(:)`"""
+    m = re.match(r"^\s*type\s*\(\s*(\w+)\s*\)\s*(.*)$", left, re.I)
+    if not m:
+        raise Problem("declaration type not supported: %r" % left.strip())
+    intent, alloc = None, False
+    for a in split_top(m.group(2).strip().lstrip(",")):
+        al = a.lower().replace(" ", "")
+        mm = re.match(r"intent\((in|out|inout)\)$", al)
+        if mm:
+            intent = mm.group(1)
+        elif al == "allocatable":
+            alloc = True
+        elif al:
+            raise Problem("attribute not supported: %r" % a)
+    out = []
+    for ent in split_top(right):
+        mm = re.match(r"^(\w+)\s*(?:\((.*)\))?$", ent.strip())
+        if not mm:
+            raise Problem("entity not supported: %r" % ent)
+        shape = split_top(mm.group(2)) if mm.group(2) is not None else []
+        out.append({"name": mm.group(1), "base": "rec:" + m.group(1).lower(), "shape": shape, "intent": intent, "param": False,
+                    "init": None, "alloc": alloc})
+    return out
+
+
+def emit_records():
+    out = []
+    if RECORDS_USED:
+        out.append("/-! ### derived types of the source (phase 4): one structure per `type`, generated from its definition -/\n")
+    for rec in RECORDS_USED:
+        nm = rec["name"] + "Rec"
+        tys, dfl = [], []
+        for fname, base, rank, dflt in rec["fields"]:
+            if rank:
+                tys.append("  %s : List (List K)" % fname)
+                dfl.append("%s := []" % fname)
+                continue
+            val = Translator().eval_const(dflt, {k: v[2] for k, v in EMIT_PARAMS.items()}) if base != "bool" else None
+            if base == "real":
+                tys.append("  %s : K" % fname)
+                dfl.append("%s := %s" % (fname, lean_real(val).s if val >= 0 else "-" + lean_real(-val).at(P_NEG)))
+            elif base == "int":
+                tys.append("  %s : Int" % fname)
+                dfl.append("%s := %d" % (fname, int(val)))
+            else:
+                if dflt[0] != "log":
+                    raise Problem("default of logical component %s" % fname)
+                tys.append("  %s : Bool" % fname)
+                dfl.append("%s := %s" % (fname, "true" if dflt[1] else "false"))
+        doc = "\n".join("    " + l for l in rec["src"])
+        out.append("/-- `type :: %s` (%s.f90)\n```fortran\n%s\n```\n-/\nstructure %s (K : Type) where\n%s\n" % (
+            rec["name"], rec["mod"], doc, nm, "\n".join(tys)))
+        out.append("/-- default initialisation of `type(%s)` (an allocatable component is not allocated: `[]`) -/\n"
+                   "def %s.dflt : %s K := { %s }\n" % (rec["name"], nm, nm, ", ".join(dfl)))
+        out.append("/-- `l(i+1)` of an array of `type(%s)` -/\ndef %s.elem (l : List (%s K)) (i : Nat) : %s K := l.getD i %s.dflt\n"
+                   % (rec["name"], nm, nm, nm, nm))
+        out.append("/-- `l(i+1) = x` -/\ndef %s.setElem (l : List (%s K)) (i : Nat) (x : %s K) : List (%s K) := l.set i x\n"
+                   % (nm, nm, nm, nm))
+    return out
+
+
+EMIT_PARAMS = {}
 
 
 # ======================================================================================== typed translation
@@ -784,6 +955,15 @@ class Ty:
         return ()
 
     def lean(self):
+        if self.base.startswith("rec:"):                            # phase 4 (f90classify)
+            nm = record_of(self.base)["name"] + "Rec K"
+            if not self.shape:
+                return nm
+            if len(self.shape) == 1:
+                return "List (%s)" % nm
+            raise Problem("rank-2 array of derived type")
+        if self.base == "int" and len(self.shape) == 1:              # phase 4 (f90classify)
+            return "List Int"
         if self.base == "real":
             return {(): "K", ("pt",): "Pt K", ("list",): "List K", ("mat",): "List (List K)"}[self.kindshape()]
         if self.base == "bool":
@@ -1041,7 +1221,7 @@ class Translator:
         for a in r.args:
             if a.lower() not in r.vars:
                 raise Problem("dummy argument %s not declared" % a)
-            if r.vars[a.lower()]["intent"] not in ("in", "out") and not (r.vars[a.lower()]["intent"] == "inout" and opts.get("inout")):
+            if r.vars[a.lower()]["intent"] not in ("in", "out") and not (r.vars[a.lower()]["intent"] == "inout" and (opts.get("inout") or opts.get("records"))):
                 raise Problem("dummy argument %s: intent(%s) not supported (only in / out)" % (a, r.vars[a.lower()]["intent"]))
         for low, v in r.vars.items():
             if v["intent"] and low not in [a.lower() for a in r.args]:
@@ -1058,6 +1238,8 @@ class Translator:
                     shape.append(int(ext))
                 elif v.get("alloc"):        # phase 4 (f90tri): the extents of the `allocate` (integer expressions)
                     shape.append(canon(parse_expr(ext)))
+                elif ext == ":" and opts.get("records") and len(v["shape_txt"]) == 1 and low in [a.lower() for a in r.args]:
+                    shape.append(":")                               # phase 4 (f90classify): assumed-shape rank-1 dummy
                 elif re.fullmatch(r"\w+", ext):
                     el = ext.lower()
                     if el not in r.vars or r.vars[el]["base"] != "int" or r.vars[el]["intent"] != "in" or r.vars[el]["shape_txt"]:
@@ -1075,13 +1257,13 @@ class Translator:
             if len(shape) > 2:
                 raise Problem("rank %d array %s not supported" % (len(shape), v["name"]))
             v["shape"] = tuple(shape)
-            v["shape_ast"] = [parse_expr(e) for e in v["shape_txt"]]
+            v["shape_ast"] = [None if e.strip() == ":" else parse_expr(e) for e in v["shape_txt"]]
         for el in list(r.extent_dummies):
             pass
         for low, v in r.vars.items():
             if v["base"] == "int" and v["intent"] == "in" and not v["shape"] and low not in r.extent_dummies:
                 # an integer input that is not the extent of an intent(in) array
-                if not (opts.get("reduce") or opts.get("unit") or opts.get("ints")):
+                if not (opts.get("reduce") or opts.get("unit") or opts.get("ints") or opts.get("records")):
                     raise Problem("integer input %s is not the extent of an intent(in) array" % v["name"])
         # enum typed integer outputs / locals: every assignment is a Family_NAME parameter
         self.assign_enum_types(r, stmts)
@@ -1119,6 +1301,7 @@ class Translator:
         ctx = Ctx(self, r)
         r.body = ctx.block(stmts, 0, State(set(r.ins)), ctx.finish)
         r.uses_undef, r.uses_norm2 = ctx.uses_undef, ctx.uses_norm2
+        r.uses_undef_int = ctx.uses_undef_int                       # phase 4 (f90classify)
         r.externals = ctx.externals
         return r
 
@@ -1278,6 +1461,8 @@ class Translator:
             return ("arr", [self.rw_expr(r, x, fv) for x in e[1]])
         if k == "slice":
             return tuple(["slice"] + [None if x is None else self.rw_expr(r, x, fv) for x in e[1:]])
+        if k == "comp":                                             # phase 4 (f90classify)
+            return ("comp", self.rw_expr(r, e[1], fv), e[2])
         if k == "ref":
             if e[1].lower() in r.vars:
                 return self.rw_ref(r, e[1], e[2], fv)
@@ -1338,6 +1523,9 @@ class Translator:
                 lhs = s[1]
                 if lhs[0] == "name" and lhs[1].lower() in fv:
                     raise Problem("assignment to a forall index")
+                if lhs[0] == "comp":                                # phase 4 (f90classify)
+                    out.append(("assign", self.rw_expr(r, lhs, fv), self.rw_expr(r, s[2], fv), s[3]))
+                    continue
                 nl = self.rw_ref(r, lhs[1], lhs[2], fv) if lhs[0] == "ref" else lhs
                 if lhs[1].lower() not in r.vars:
                     raise Problem("assignment to undeclared %s" % lhs[1])
@@ -1413,19 +1601,29 @@ class State:
         self.defined = set(defined)
         self.loops = dict(loops or {})
         self.poison = dict(poison or {})      # lower name -> token of the loop that must carry it if it is read
+        self.sizes = {}                       # phase 4 (f90classify): int local -> (text `size(<array>,k)` it holds, names read)
 
     def copy(self):
-        return State(self.defined, self.loops, self.poison)
+        c = State(self.defined, self.loops, self.poison)
+        c.sizes = dict(self.sizes)            # phase 4 (f90classify)
+        return c
 
     def assigned(self, low):
         self.defined.add(low)
         self.poison.pop(low, None)
+        self.drop_sizes([low])                # phase 4 (f90classify)
+
+    def drop_sizes(self, lows):
+        """phase 4 (f90classify): forget `n = size(a, k)` facts about / depending on the variables `lows`"""
+        for k in [k for k, (_, names) in self.sizes.items() if k in lows or any(x in names for x in lows)]:
+            del self.sizes[k]
 
 
 class Ctx:
     def __init__(self, tr, r):
         self.tr, self.r = tr, r
         self.uses_undef = False
+        self.uses_undef_int = False                                 # phase 4 (f90classify)
         self.uses_norm2 = False
         self.ncall = 0
         self.nloop = 0
@@ -1450,6 +1648,11 @@ class Ctx:
 
     def undef_of(self, ty, what):
         ks = ty.kindshape()
+        if ty.base == "int" and not ty.shape:                       # phase 4 (f90classify): an undefined integer is `undefI : Int`
+            self.uses_undef_int = True
+            return V(ty, "undefI", z="undefI")
+        if ty.base.startswith("rec:") and not ty.shape:             # phase 4 (f90classify): default initialisation
+            return V(ty, "(%sRec.dflt : %sRec K)" % (record_of(ty.base)["name"], record_of(ty.base)["name"]))
         if ty.base == "real":
             self.uses_undef = True
             if ks == ():
@@ -1648,7 +1851,9 @@ class Ctx:
     # -- a loop `do i = <literal lo>, <integer expression>`: a left fold over `List.range' lo (hi + 1 - lo)`
     def assigned_in(self, stmts, acc, rets):
         for s in stmts:
-            if s[0] == "assign":
+            if s[0] == "assign" and s[1][0] == "comp":              # phase 4 (f90classify)
+                acc.add(s[1][1][1].lower())
+            elif s[0] == "assign":
                 acc.add(s[1][1].lower())
             elif s[0] == "call":
                 cal = self.callee(s[1])
@@ -1763,6 +1968,7 @@ class Ctx:
             return items[0] if len(items) == 1 else "(" + ", ".join(items) + ")"
 
         st_body = st.copy()
+        st_body.drop_sizes(mods)                                    # phase 4 (f90classify)
         st_body.defined |= set(carried)
         for m in local:
             st_body.poison[m] = token
@@ -1784,6 +1990,7 @@ class Ctx:
         if has_ret:
             inner = ("matchopt", self.proj("st", 0, n), None, ("ret", "st"), inner)
         st2 = st.copy()
+        st2.drop_sizes(mods)                                        # phase 4 (f90classify)
         st2.defined |= set(carried)
         for m in local:
             st2.poison[m] = token
@@ -1911,6 +2118,10 @@ class Ctx:
 
     def assign(self, s, st, rest):
         _, lhs, rhs, text = s
+        if lhs[0] == "comp" or (lhs[0] in ("name", "ref") and lhs[1].lower() in self.r.vars and (
+                self.r.vars[lhs[1].lower()]["base"].startswith("rec:")
+                or (self.r.vars[lhs[1].lower()]["base"] == "int" and self.r.vars[lhs[1].lower()]["shape"]))):
+            return self.assign_phase4(s, st, rest)                  # phase 4 (f90classify)
         name = lhs[1]
         low = name.lower()
         if low not in self.r.vars:
@@ -1961,6 +2172,7 @@ class Ctx:
                 raise Problem("assignment %r: type %s where an integer is expected" % (text, val.ty))
             st2 = st.copy()
             st2.assigned(low)
+            self.note_size(st2, low, rhs)                           # phase 4 (f90classify)
             return ("let", v["lean"], "(%s : Int)" % val.z if val.const is not None else val.z, rest(st2))
         if lhs[0] == "name":
             if ty.base == "real" and ty.kindshape() == ("list",) and (val.ty == REAL or val.ty == Ty("int")):
@@ -2050,6 +2262,71 @@ class Ctx:
         self.uses_undef = True
         return V(v["ty"], "List.replicate %s (List.replicate %s undef)" % (self.extent_val(low, 0, st).at(P_APP),
                                                                             self.extent_val(low, 1, st).at(P_APP)), P_APP)
+    # ------------------------------------------------------------------ phase 4 (f90classify): records / integer arrays
+    def assign_phase4(self, s, st, rest):
+        """`x%f = e`, `a(i)%f = e`, `x = <record>`, `a(i) = <record>` (derived types); `v(i) = e`, `v(lo:hi) = v(lo2:hi2)` on an
+           integer rank-1 array"""
+        _, lhs, rhs, text = s
+        tgt = lhs[1] if lhs[0] == "comp" else lhs
+        low = tgt[1].lower()
+        if low not in self.r.vars:
+            raise Problem("assignment to undeclared %s" % tgt[1])
+        v = self.r.vars[low]
+        if v["intent"] == "in" or low in self.r.extent_dummies or low in st.loops:
+            raise Problem("assignment to intent(in) %s" % v["name"])
+        val = self.expr(rhs, st)
+        if v["base"] == "int":
+            cur = self.read_var(low, st)
+            if tgt[0] == "ref" and len(tgt[2]) == 1 and tgt[2][0][0] == "slice":
+                sl = tgt[2][0]
+                if len(sl) != 3 or sl[1] is None or sl[2] is None:
+                    raise Problem("section of an integer array needs both bounds: %r" % text)
+                if not (val.ty.base == "int" and len(val.ty.shape) == 1):
+                    raise Problem("assignment %r: an integer section is expected on the right" % text)
+                lo, hi = self.nat_bound(sl[1], st), self.nat_bound(sl[2], st)
+                new = "setSecI %s %s %s %s" % (cur.at(P_APP), lo, hi, val.at(P_APP))
+            elif tgt[0] == "ref" and len(tgt[2]) == 1:
+                val = self.coerce(val, Ty("int"), "assignment %r" % text)
+                i0, _ = self.index0(tgt[2][0], st, v["name"], v["ty"].shape[0])
+                new = "List.set %s %s %s" % (cur.at(P_APP), i0, val.at(P_APP))
+            else:
+                raise Problem("assignment to the integer array %s not supported: %r" % (v["name"], text))
+        else:
+            rec = record_of(v["base"])
+            elem = None
+            if tgt[0] == "ref":
+                if len(tgt[2]) != 1 or tgt[2][0][0] == "slice" or len(v["ty"].shape) != 1:
+                    raise Problem("assignment target not supported: %r" % text)
+                elem, _ = self.index0(tgt[2][0], st, v["name"], v["ty"].shape[0])
+            elif v["ty"].shape:
+                raise Problem("whole-array assignment of derived type not supported: %r" % text)
+            if lhs[0] == "comp":
+                f = record_field(rec, lhs[2])
+                if f[2] != 0:
+                    raise Problem("assignment to an array component not supported: %r" % text)
+                want = {"real": REAL, "int": Ty("int"), "bool": BOOL}[f[1]]
+                if want == REAL and val.ty == Ty("int"):
+                    val = self.int_to_real(val)
+                val = self.coerce(val, want, "assignment %r" % text)
+                old = self.rec_value(tgt, st)
+                item = "{ %s with %s := %s }" % (old.s, f[0], val.s)
+            else:
+                if not (val.ty.base == v["base"] and not val.ty.shape):
+                    raise Problem("assignment %r: type %s where type(%s) is expected" % (text, val.ty, rec["name"]))
+                item = val.s
+            if elem is None:
+                new = item
+            else:
+                cur = self.read_var(low, st)
+                new = "%sRec.setElem %s %s %s" % (rec["name"], cur.at(P_APP), elem, item if item.startswith("{") else "(" + item + ")")
+        st2 = st.copy()
+        st2.assigned(low)
+        return ("let", v["lean"], new, rest(st2))
+
+    def nat_bound(self, e, st):
+        """Nat-valued text of a section bound (a negative value reads as 0)"""
+        n = self.nat_of(e, st, "section bound")
+        return n.at(P_APP)
 
     def extent_val(self, low, axis, st):
         """declared extent of axis `axis` of variable `low` as a Nat-valued V (a negative extent is an empty array)"""
@@ -2250,7 +2527,9 @@ class Ctx:
             if d in cal.extent_dummies:
                 continue
             carries = lift is not None and lift in dv.get("orig_exts", [])
-            if dv["intent"] == "in":
+            if dv["intent"] == "inout":                             # phase 4 (f90classify): read and written
+                outs.append((d, a))
+            if dv["intent"] in ("in", "inout"):
                 val = self.expr(a, st)
                 if carries:
                     want = self.lifted_ty(dv["ty"])
@@ -2274,6 +2553,8 @@ class Ctx:
         for d in cal.extent_dummies:
             a = by_dummy[d]
             got = self.extent_text(a)
+            if a[0] == "name" and a[1].lower() in st.sizes:         # phase 4 (f90classify): the local holds `size(<array>, k)`
+                got = st.sizes[a[1].lower()][0]
             for arr, axis in cal.extent_uses[d]:
                 shift = 1 if (lift is not None and lift in cal.vars[arr].get("orig_exts", [])) else 0
                 want = self.extent_of(by_dummy[arr], axis + shift, st, text)
@@ -2314,6 +2595,8 @@ class Ctx:
                 if len(sl) == 3 and sl[1] is None and sl[2] is not None:        # `:hi` has `hi` elements
                     e = sl[2]
                     return int(e[1]) if (e[0] == "num" and not e[2]) else (e[1].lower() if e[0] == "name" else canon(e))
+        if a[0] == "comp":                                          # phase 4 (f90classify): an allocatable component
+            return "size(%s,%d)" % (canon(a), axis + 1)
         return None
 
     def call_stmt(self, s, st, rest):
@@ -2421,6 +2704,9 @@ class Ctx:
         if cal.uses_undef:
             self.uses_undef = True
             parts.append("undef")
+        if getattr(cal, "uses_undef_int", False):                   # phase 4 (f90classify)
+            self.uses_undef_int = True
+            parts.append("undefI")
         if cal.uses_norm2:
             self.uses_norm2 = True
             parts.append("norm2")
@@ -2453,7 +2739,99 @@ class Ctx:
             return (self.is_int_ast(e[2], st) and e[3][0] == "num" and not e[3][2] and 2 <= e[3][1] <= 4)
         if k == "ref" and e[1].lower() == "mod" and e[1].lower() not in self.r.vars and len(e[2]) == 2:
             return self.is_int_ast(e[2][0], st) and self.is_int_ast(e[2][1], st)
+        if k == "comp":                                             # phase 4 (f90classify)
+            return self.comp_field(e)[1] == "int"
+        if k == "ref" and e[1].lower() == "size" and e[1].lower() not in self.r.vars:
+            return True
+        if k == "ref" and e[1].lower() == "modulo" and e[1].lower() not in self.r.vars and len(e[2]) == 2:
+            return self.is_int_ast(e[2][0], st) and self.is_int_ast(e[2][1], st)
+        if k == "ref" and e[1].lower() in self.r.vars and len(e[2]) == 1 and e[2][0][0] != "slice":
+            v = self.r.vars[e[1].lower()]
+            return v["ty"].base == "int" and len(v["ty"].shape) == 1
         return False
+
+    # ------------------------------------------------------------------ phase 4 (f90classify): derived types, size, modulo
+    def comp_field(self, e):
+        """(record entry, base, rank) of the component reference `e` = ('comp', name | ref, field)"""
+        b = e[1]
+        if b[0] not in ("name", "ref") or b[1].lower() not in self.r.vars:
+            raise Problem("component of %s not supported" % canon(b))
+        v = self.r.vars[b[1].lower()]
+        if not v["base"].startswith("rec:"):
+            raise Problem("%s is not of derived type" % v["name"])
+        rec = record_of(v["base"])
+        f = record_field(rec, e[2])
+        return rec, f[1], f[2], f[0]
+
+    def rec_value(self, b, st):
+        """the record denoted by a name / an element reference, as V"""
+        low = b[1].lower()
+        v = self.r.vars[low]
+        rec = record_of(v["base"])
+        if b[0] == "name":
+            if v["ty"].shape:
+                raise Problem("component of the whole array %s" % v["name"])
+            return self.read_var(low, st)
+        if len(b[2]) != 1 or len(v["ty"].shape) != 1 or b[2][0][0] == "slice":
+            raise Problem("reference to %s: one subscript expected" % v["name"])
+        if low in st.poison:
+            raise PoisonRead(low, st.poison[low])
+        if low not in st.defined:
+            raise Problem("element of unassigned %s" % v["name"])
+        i0, _ = self.index0(b[2][0], st, v["name"], v["ty"].shape[0])
+        return V(Ty(v["base"]), "%sRec.elem %s %s" % (rec["name"], v["lean"], i0), P_APP)
+
+    def comp_ref(self, e, st):
+        rec, base, rank, fname = self.comp_field(e)
+        txt = "%s.%s" % (self.rec_value(e[1], st).at(P_APP), fname)
+        if base == "real" and rank == 0:
+            return V(REAL, txt, P_ATOM)
+        if base == "real" and rank == 2:
+            return V(Ty("real", ("(alloc)", "(alloc)")), txt, P_ATOM)
+        if base == "int" and rank == 0:
+            return V(Ty("int"), None, P_ATOM, z=txt)
+        if base == "bool" and rank == 0:
+            out = V(BOOL, txt, P_ATOM)
+            out.logic = ("atom", V(BOOL, txt, P_ATOM))
+            return out
+        raise Problem("component %s of this type / rank not supported" % fname)
+
+    def size_text(self, args, st):
+        """Nat-valued text of `size(a [, dim])`"""
+        if len(args) not in (1, 2):
+            raise Problem("size: wrong number of arguments")
+        a = self.expr(args[0], st)
+        dim = None
+        if len(args) == 2:
+            if not (args[1][0] == "num" and not args[1][2] and args[1][1] in (1, 2)):
+                raise Problem("size: the dimension must be the literal 1 or 2")
+            dim = int(args[1][1])
+        ks = a.ty.kindshape()
+        if ks == ("mat",) and dim == 2:
+            return "ncols %s" % a.at(P_APP)
+        if (ks == ("mat",) and dim == 1) or (ks == ("list",) and dim in (None, 1)):
+            return "List.length %s" % a.at(P_APP)
+        raise Problem("size of this argument not supported")
+
+    def note_size(self, st, low, rhs):
+        """after `low = size(<array>, k)`: remember it (used to match an extent argument against its array argument)"""
+        while rhs[0] == "paren":
+            rhs = rhs[1]
+        if rhs[0] == "ref" and rhs[1].lower() == "size" and "size" not in self.r.vars and len(rhs[2]) == 2 \
+                and rhs[2][1][0] == "num" and not rhs[2][1][2]:
+            names = set()
+
+            def walk(x):
+                if isinstance(x, tuple):
+                    if x and x[0] in ("name", "ref") and isinstance(x[1], str):
+                        names.add(x[1].lower())
+                    for y in x[1:]:
+                        walk(y)
+                elif isinstance(x, list):
+                    for y in x:
+                        walk(y)
+            walk(rhs[2][0])
+            st.sizes[low] = ("size(%s,%d)" % (canon(rhs[2][0]), int(rhs[2][1][1])), names)
 
     def is_int_var(self, low):
         """an integer scalar variable (input, output or local) that is neither an extent nor an enum"""
@@ -2477,6 +2855,25 @@ class Ctx:
                     return v.s, P_ATOM                      # an Int-valued variable
                 return "((%s : Nat) : Int)" % v.s, P_ATOM
             return str(int(self.tr.params[low][2])), P_ATOM
+        if k == "comp":                                             # phase 4 (f90classify)
+            return self.comp_ref(e, st).z, P_ATOM
+        if k == "ref" and e[1].lower() == "size":
+            return "((%s : Nat) : Int)" % self.size_text(e[2], st), P_ATOM
+        if k == "ref" and e[1].lower() == "modulo":
+            # Fortran `modulo(a, p)` with a positive literal `p` is Lean's `Int.emod` (result in `[0, p)`)
+            if not (e[2][1][0] == "num" and not e[2][1][2] and e[2][1][1] > 0):
+                raise Problem("modulo: the modulus must be a positive integer literal")
+            a, pa = self.int_value(e[2][0], st)
+            return "%s %% %d" % (a if pa > P_MUL - 1 else "(" + a + ")", int(e[2][1][1])), P_MUL
+        if k == "ref" and e[1].lower() in self.r.vars:      # phase 4 (f90classify): element of an integer rank-1 array
+            low = e[1].lower()
+            v = self.r.vars[low]
+            if low in st.poison:
+                raise PoisonRead(low, st.poison[low])
+            if low not in st.defined:
+                raise Problem("element of unassigned %s" % v["name"])
+            i0, _ = self.index0(e[2][0], st, v["name"], v["ty"].shape[0])
+            return "intAt %s %s" % (v["lean"], i0), P_APP
         if k == "un":
             t, p = self.int_value(e[2], st)
             return "-" + (t if p > P_NEG else "(" + t + ")"), P_NEG
@@ -2553,6 +2950,8 @@ class Ctx:
             if len(items) == 2:
                 return V(Ty("real", (2,)), "(%s, %s)" % (items[0].s, items[1].s), P_ATOM)
             return V(Ty("real", (len(items),)), "[" + ", ".join(x.s for x in items) + "]", P_ATOM)
+        if k == "comp":                                             # phase 4 (f90classify)
+            return self.comp_ref(e, st)
         if k == "un":
             x = self.expr(e[2], st)
             if e[1] == "not":
@@ -2569,6 +2968,15 @@ class Ctx:
             return self.binop(e[1], self.expr(e[2], st), self.expr(e[3], st))
         if k == "ref":
             low = e[1].lower()
+            if low in self.r.vars and self.r.vars[low]["base"].startswith("rec:"):          # phase 4 (f90classify)
+                return self.rec_value(e, st)
+            if low in self.r.vars and self.r.vars[low]["base"] == "int" and len(self.r.vars[low]["shape"]) == 1 \
+                    and len(e[2]) == 1 and e[2][0][0] == "slice":                              # phase 4: `v(lo:hi)`
+                sl = e[2][0]
+                if len(sl) != 3 or sl[1] is None or sl[2] is None:
+                    raise Problem("section of an integer array needs both bounds")
+                cur = self.read_var(low, st)
+                return V(Ty("int", ("(section)",)), "secI %s %s %s" % (cur.at(P_APP), self.nat_bound(sl[1], st), self.nat_bound(sl[2], st)), P_APP)
             if low in self.r.vars:
                 return self.array_ref(low, e[2], st)
             return self.func(e[1], e[2], st)
@@ -2835,6 +3243,10 @@ class Ctx:
                 atom = V(BOOL, "%s %s" % ("anyB" if low == "any" else "allB", vals[0].at(P_APP)), P_APP)
                 return mk_bool(("atom", atom))
             raise Problem("%s of this argument not supported" % low)
+        if low == "sign":                                           # phase 4 (f90classify)
+            if len(vals) == 2 and vals[0].ty == REAL and vals[1].ty == REAL:
+                return V(REAL, "signK %s %s" % (vals[0].at(P_APP), vals[1].at(P_APP)), P_APP)
+            raise Problem("sign needs two real scalars")
         cal = self.callee(name)
         if cal.kind != "function":
             raise Problem("%s is a subroutine, referenced as a function" % name)
@@ -2959,10 +3371,31 @@ def setColSec (m : List (List K)) (j lo hi : Nat) (w : List K) : List (List K) :
 """
 
 
+PRELUDE += """
+/-! ### phase 4 (f90classify) -/
+
+/-- `sign(a, b)`: `|a|` if `b >= 0`, `-|a|` if `b < 0` (`K` has no negative zero: for `b = -0.0` gfortran returns `-|a|`) -/
+def signK (a b : K) : K := if b < 0 then -absK a else absK a
+
+/-- `v(i+1)` of an integer array (`0` outside) -/
+def intAt (v : List Int) (i : Nat) : Int := v.getD i 0
+
+/-- `v(lo:hi)` of an integer array (1-based, inclusive; empty for `hi < lo`) -/
+def secI (v : List Int) (lo hi : Nat) : List Int := (v.drop (lo - 1)).take (hi + 1 - lo)
+
+/-- `v(lo:hi) = w` on an integer array -/
+def setSecI (v : List Int) (lo hi : Nat) (w : List Int) : List Int := v.take (lo - 1) ++ w.take (hi + 1 - lo) ++ v.drop hi
+"""
+
+LEAN_KEYWORDS |= {"undefI", "signK", "intAt", "dflt", "elem", "setElem", "secI", "setSecI"}
+
+
 def signature(r):
     parts = []
     if r.uses_undef:
         parts.append("(undef : K)")
+    if getattr(r, "uses_undef_int", False):                         # phase 4 (f90classify)
+        parts.append("(undefI : Int)")
     if r.uses_norm2:
         parts.append("(norm2 : List K → K)")
     for x in r.externals:
@@ -2985,6 +3418,8 @@ def emit(tr, done):
            "namespace BezierVerif.Generated.SrcF90", "", "open BezierVerif.Model", "",
            "variable {K : Type} [Add K] [Sub K] [Mul K] [Div K] [Neg K] [OfNat K 0] [OfNat K 1] [NatCast K]",
            "  [LT K] [DecidableLT K] [LE K] [DecidableLE K] [DecidableEq K]", "", PRELUDE]
+    EMIT_PARAMS.update(tr.params)                                   # phase 4 (f90classify)
+    out += emit_records()
     if tr.param_used:
         out.append("/-! ### module parameters referenced by the routines (exact values of the constant expressions) -/\n")
         for low in tr.param_used:
@@ -3038,6 +3473,7 @@ def main(argv):
         try:
             lines[mod] = module_lines(mod)
             tr.load_parameters(mod, lines[mod])
+            load_records(mod, lines[mod])                           # phase 4 (f90classify)
         except (OSError, Problem) as exc:
             tr.problems.append("EXTRACT-PROBLEM srcf90: %s.f90: %s" % (mod, exc))
             lines[mod] = None
